@@ -87,7 +87,7 @@ void explore06(Options const& o, std::vector<Shim*> const& shims, std::vector<Sh
     // comparisons applied directly to the results of two calls in one inlined scope: floor/ceil/-x/abs of a and b
     {
     int c_res = rec.cls("C06.comparison_of_two_fresh_results_wrong");
-    std::vector<i64> P; for( i64 x : Sc ) if( fx_finite(x) ) P.push_back(x);
+    std::vector<i64> P; for( i64 x : (th ? S_set(5,2,true,true) : S_set(4,2,true,true)) ) if( fx_finite(x) ) P.push_back(x);      // |P|^2 x 24 calls per configuration
     for( int op : { U_FLOOR, U_CEIL, U_NEG, U_ABS } )
       {
       std::vector<i64> R1(P.size()); for( size_t i = 0; i < P.size(); ++i ) R1[i] = s->fm_un(op, P[i]);
